@@ -17,6 +17,7 @@ package main
 import (
 	"fmt"
 	"os"
+	"path"
 	"path/filepath"
 	"sort"
 	"strings"
@@ -96,18 +97,23 @@ func dimsFor(format string) []dim {
 	epubPaths := []string{"default", "twodigit", "nested", "renamed", "rootopf", "deepopf", "pct", "plus", "pctplus", "utf8", "updir"}
 	place := dim{"place", []string{"after", "before"}}            // part members after / before the infrastructure members
 	relorder := dim{"relorder", []string{"creation", "reversed"}} // order of <Relationship> / manifest <item> elements
+	// one declared part lacks the optional companion part that every other part has (pptx: notes slide + slide .rels;
+	// xlsx: comments part + sheet .rels; epub: per-chapter stylesheet resource)
+	companion := dim{"companion", []string{"none", "all-but-first", "all-but-mid", "all-but-last"}}
+	// one declared part is readable but empty (blank sheet, slide without text, chapter with an empty body)
+	blank := dim{"blank", []string{"none", "first", "mid", "last"}}
 	// the dimensions listed last are enumerated first (path and decoy deviations before the cosmetic ones)
 	switch format {
 	case "xlsx":
 		return []dim{place, relorder, {"target", []string{"rel", "abs"}}, {"opt", []string{"all", "no-sst", "no-styles", "no-docprops"}},
-			{"absent", absent}, {"decoy", decoys}, {"path", ooxmlPaths}}
+			{"absent", absent}, blank, companion, {"decoy", decoys}, {"path", ooxmlPaths}}
 	case "pptx":
 		return []dim{place, relorder, {"target", []string{"rel", "abs"}}, {"opt", []string{"all", "no-docprops", "no-theme", "no-sliderels", "notes"}},
-			{"absent", absent}, {"decoy", decoys}, {"path", ooxmlPaths}}
+			{"absent", absent}, blank, companion, {"decoy", decoys}, {"path", ooxmlPaths}}
 	case "epub2":
-		return []dim{place, relorder, {"opt", []string{"all", "no-nav", "both-nav"}}, {"absent", absent}, {"decoy", decoys}, {"path", epubPaths}}
+		return []dim{place, relorder, {"opt", []string{"all", "no-nav", "both-nav"}}, {"absent", absent}, blank, companion, {"decoy", decoys}, {"path", epubPaths}}
 	case "epub3":
-		return []dim{place, relorder, {"opt", []string{"all", "no-nav", "both-nav", "nav-in-spine"}}, {"absent", absent}, {"decoy", decoys}, {"path", epubPaths}}
+		return []dim{place, relorder, {"opt", []string{"all", "no-nav", "both-nav", "nav-in-spine"}}, {"absent", absent}, blank, companion, {"decoy", decoys}, {"path", epubPaths}}
 	}
 	panic("format")
 }
@@ -167,6 +173,7 @@ type built struct {
 	ext    string
 	expect []int
 	names  []string // xlsx: expected sheet names; epub: expected chapter member names
+	notes  []bool   // pptx: per expected slide, whether it has speaker notes
 }
 
 // slotNumber maps the file rank of a part (or the decoy, rank<0) to the number used in its file name.
@@ -242,13 +249,36 @@ func (s *spec) absentPos() int {
 	return -1
 }
 
+func (s *spec) posOf(val string) int {
+	switch strings.TrimPrefix(val, "all-but-") {
+	case "first":
+		return 0
+	case "mid":
+		return 1
+	case "last":
+		return s.n - 1
+	}
+	return -1
+}
+
+// isBlank: the part at declared position i is readable but carries no text (and no companion).
+func (s *spec) isBlank(i int) bool { return i == s.posOf(s.v["blank"]) }
+
+// hasCompanion: the part at declared position i has the optional companion part.
+func (s *spec) hasCompanion(i int) bool {
+	return s.v["companion"] != "none" && i != s.posOf(s.v["companion"]) && !s.isBlank(i)
+}
+
 func (s *spec) expected() []int {
 	var e []int
 	for i, k := range s.decl {
-		if i == s.absentPos() {
-			continue
+		switch {
+		case i == s.absentPos():
+		case s.isBlank(i):
+			e = append(e, -1) // a page of its own, without any token
+		default:
+			e = append(e, k)
 		}
-		e = append(e, k)
 	}
 	return e
 }
@@ -291,7 +321,10 @@ func buildXLSX(s *spec) built {
 	for i, k := range s.decl {
 		sh := xsheet{Name: fmt.Sprintf("Tab %c", 'A'+k), SheetID: k + 1, RID: fmt.Sprintf("rId%d", k+1),
 			Path: ooxmlPath("xlsx", s.v["path"], s.slotNumber(s.name[k])), Head: "Head " + tok(k), Body: "Body " + tok(k), SST: s.n - k,
-			Absent: i == s.absentPos()}
+			Absent: i == s.absentPos(), Blank: s.isBlank(i)}
+		if s.hasCompanion(i) {
+			sh.Comment = "Note " + tok(k)
+		}
 		b.Sheets = append(b.Sheets, sh)
 		if !sh.Absent {
 			names = append(names, sh.Name)
@@ -320,11 +353,23 @@ func buildPPTX(s *spec) built {
 		}
 		return sl
 	}
+	var notes []bool
 	for i, k := range s.decl {
 		sl := mk(k, s.name[k], fmt.Sprintf("rId%d", 11+k))
 		sl.SlideID = 256 + k // creation order: a moved slide keeps its id
 		sl.Absent = i == s.absentPos()
+		switch {
+		case s.isBlank(i):
+			sl.Title, sl.Paras, sl.Notes = "", nil, ""
+		case s.hasCompanion(i):
+			sl.Notes = "Note " + tok(k)
+		case s.v["companion"] != "none":
+			sl.NoRels = true // the one slide without notes has no .rels part either
+		}
 		d.Slides = append(d.Slides, sl)
+		if !sl.Absent {
+			notes = append(notes, sl.Notes != "")
+		}
 	}
 	if s.v["decoy"] != "none" {
 		sl := mk(-1, -1, "rId77")
@@ -334,7 +379,7 @@ func buildPPTX(s *spec) built {
 	}
 	d.RelOrder = s.relOrder()
 	d.PartOrder = s.partOrder()
-	return built{data: pack(d.Members(), "ppt/presentation.xml"), ext: ".pptx", expect: s.expected()}
+	return built{data: pack(d.Members(), "ppt/presentation.xml"), ext: ".pptx", expect: s.expected(), notes: notes}
 }
 
 func epubHref(style string, num int) (opf, href string) {
@@ -379,6 +424,14 @@ func buildEPUB(s *spec) built {
 	for i, k := range s.decl {
 		c := mk(k, s.name[k], fmt.Sprintf("item-%c", 'a'+k))
 		c.Absent = i == s.absentPos()
+		if s.isBlank(i) {
+			c.Title, c.Body = "", ""
+		}
+		if s.hasCompanion(i) {
+			css := fmt.Sprintf("style-%c.css", 'a'+k) // next to the chapter file
+			c.Head = `<link rel="stylesheet" type="text/css" href="` + css + `"/>`
+			b.Resources = append(b.Resources, epubw.Resource{ID: fmt.Sprintf("css-%c", 'a'+k), Href: path.Join(path.Dir(c.Href), css), MediaType: "text/css", Data: "p { margin: 0 }"})
+		}
 		b.Chapters = append(b.Chapters, c)
 		if !c.Absent {
 			names = append(names, epubw.Resolve(b.OPFPath, c.Href))
@@ -633,8 +686,11 @@ func observe(s *spec, b built, file string) (j *judge, openErr error) {
 			}
 			t.WriteString(sl.Notes + "\n")
 			slides = append(slides, t.String())
-			if s.v["opt"] == "notes" && !strings.Contains(sl.Notes, "Note ZQ") {
+			if r.SlideCount() == len(b.notes) && b.notes[i] && !strings.Contains(sl.Notes, "Note ZQ") {
 				j.flag("part-lost", "pptx.Slide(i).Notes", fmt.Sprintf("slide %d has no notes", i+1))
+			}
+			if r.SlideCount() == len(b.notes) && !b.notes[i] && sl.Notes != "" {
+				j.flag("text-in-wrong-page", "pptx.Slide(i).Notes", fmt.Sprintf("slide %d has no notes slide but reports notes %q", i+1, sl.Notes))
 			}
 		}
 		j.paged("pptx.Slide(i)", slides)
@@ -662,6 +718,7 @@ func observe(s *spec, b built, file string) (j *judge, openErr error) {
 func run(e *harness.Env) {
 	e.Rule = "per format (xlsx, pptx, epub2, epub3): every triple (declared order, file-name order, ZIP member order) of permutations of N parts " +
 		"(N=3: 216 triples, N=4: 13824) x packaging variants = every assignment of {part path style, Target spelling, optional parts, decoy part, absent declared part, " +
+		"one blank part (every position), one part without the optional companion part the others have (every position), " +
 		"relationship/manifest element order, members before/after infrastructure} with at most B non-default values " +
 		"(quick: N=3,B=1; thorough: N=4,B=1 and N=3,B=2). distinct = distinct descriptors; non-trivial = any permutation differs from creation order or any variant value is non-default"
 	e.Assumptions = []string{
